@@ -45,10 +45,10 @@ PROP = dict(
     ],
     units=[
         E("ulps", "A", "./c10", "TestC10Ulps", 8, 16),
-        R("scale", "A", "./c10", "TestC10Scale", (60000, 4), (1500000, 16)),
-        R("common", "A", "./c10", "TestC10Common", (20000, 2), (500000, 16)),
-        R("classof", "A", "./c10", "TestC10ClassOf", (40000, 1), (1000000, 16)),
-        R("noop", "A", "./c10", "TestC10NoOp", (40000, 1), (1000000, 16)),
+        R("scale", "A", "./c10", "TestC10Scale", (200000, 8), (3000000, 16)),
+        R("common", "A", "./c10", "TestC10Common", (60000, 4), (600000, 16)),
+        R("classof", "A", "./c10", "TestC10ClassOf", (100000, 2), (400000, 16)),
+        R("noop", "A", "./c10", "TestC10NoOp", (100000, 2), (400000, 16)),
         F("fuzz", "./c10", "FuzzC10", 60),
     ],
 )
